@@ -168,6 +168,27 @@ Proof.
     repeat (destruct Hs as [|? Hs]; try discriminate Hl); reflexivity.
 Qed.
 
+(* lifting: normal forms agree on a range  ==>  the rational-valued identity on that range *)
+Lemma clique_identity_lift N : (N <= 5)%nat -> forallb clique_ok (seq 2 N) = true ->
+  forall tau, (2 <= tau < 2 + N)%nat ->
+  forall (phi : Q) (Hs : list Q), length Hs = (tau - 1)%nat ->
+    clique_val tau phi Hs == exact_val (seq 0 tau) (all_edges tau) 0 phi (fun v => nth (v - 1) Hs 0).
+Proof.
+  intros HN H tau Ht phi Hs Hl.
+  rewrite forallb_forall in H.
+  specialize (H tau ltac:(apply in_seq; lia)). unfold clique_ok in H.
+  pose proof (peq_sound _ _ H (phi :: Hs)) as E.
+  rewrite clique_expr_val in E. unfold clique_spec in E. rewrite exact_expr_val in E.
+  assert (Ht6 : (2 <= tau <= 6)%nat) by lia.
+  rewrite (hvars_eval phi Hs tau Ht6 Hl) in E.
+  change (peval (phi :: Hs) (px 1)) with phi in E. rewrite E.
+  unfold exact_val. apply qsum_map_ext. intros S _. cbv zeta.
+  assert (Hu : forall v, peval (phi :: Hs) (nth (v - 1) (hvars tau) (pc 0)) = nth (v - 1) Hs 0).
+  { intros v. rewrite <- (hvars_eval phi Hs tau Ht6 Hl) at 2.
+    change 0 with (peval (phi :: Hs) (pc 0)). rewrite map_nth. reflexivity. }
+  rewrite (map_ext _ _ Hu). reflexivity.
+Qed.
+
 (* BOUNDED: for 2 <= tau <= 6, every rational phi and every (heterogeneous) list of tau-1 neighbour
    values, the clique equation equals the exact expectation on K_tau seen from vertex 0, neighbour i
    carrying Hs[i-1].  (An identity of polynomials: normal forms agree.) *)
@@ -175,18 +196,7 @@ Theorem clique_identity_upto_6 : forall tau, (2 <= tau <= 6)%nat ->
   forall (phi : Q) (Hs : list Q), length Hs = (tau - 1)%nat ->
     clique_val tau phi Hs == exact_val (seq 0 tau) (all_edges tau) 0 phi (fun v => nth (v - 1) Hs 0).
 Proof.
-  intros tau Ht phi Hs Hl.
-  pose proof clique_ok_upto_6 as H. rewrite forallb_forall in H.
-  specialize (H tau ltac:(apply in_seq; lia)). unfold clique_ok in H.
-  pose proof (peq_sound _ _ H (phi :: Hs)) as E.
-  rewrite clique_expr_val in E. unfold clique_spec in E. rewrite exact_expr_val in E.
-  rewrite (hvars_eval phi Hs tau Ht Hl) in E.
-  change (peval (phi :: Hs) (px 1)) with phi in E. rewrite E.
-  unfold exact_val. apply qsum_map_ext. intros S _. cbv zeta.
-  assert (Hu : forall v, peval (phi :: Hs) (nth (v - 1) (hvars tau) (pc 0)) = nth (v - 1) Hs 0).
-  { intros v. rewrite <- (hvars_eval phi Hs tau Ht Hl) at 2.
-    change 0 with (peval (phi :: Hs) (pc 0)). rewrite map_nth. reflexivity. }
-  rewrite (map_ext _ _ Hu). reflexivity.
+  intros tau Ht. apply (clique_identity_lift 5 (Nat.le_refl 5) clique_ok_upto_6). lia.
 Qed.
 
 (* the same as an identity of polynomial expressions, for every environment *)
@@ -197,18 +207,22 @@ Proof.
   apply peq_sound. apply (H tau). apply in_seq. lia.
 Qed.
 
-(* BOUNDED: for 3 <= n <= 10 the chordless-cycle equation equals the exact expectation on the cycle C_n
-   seen from vertex 0, every other vertex carrying the same u (the code takes one u) *)
-Theorem cycle_identity_upto_10 : forall n, (3 <= n <= 10)%nat ->
+Lemma cycle_identity_lift N : forallb cycle_ok (seq 3 N) = true ->
+  forall n, (3 <= n < 3 + N)%nat ->
   forall (u phi : Q), cycle_val n u phi == exact_val (seq 0 n) (cycle_edges n) 0 phi (fun _ => u).
 Proof.
-  intros n Hn u phi.
-  pose proof cycle_ok_upto_10 as H. rewrite forallb_forall in H.
+  intros H n Hn u phi. rewrite forallb_forall in H.
   specialize (H n ltac:(apply in_seq; lia)). unfold cycle_ok in H.
   pose proof (peq_sound _ _ H [phi; u]) as E.
   rewrite cycle_expr_val in E. unfold cycle_spec in E. rewrite exact_expr_val in E.
   exact E.
 Qed.
+
+(* BOUNDED: for 3 <= n <= 10 the chordless-cycle equation equals the exact expectation on the cycle C_n
+   seen from vertex 0, every other vertex carrying the same u (the code takes one u) *)
+Theorem cycle_identity_upto_10 : forall n, (3 <= n <= 10)%nat ->
+  forall (u phi : Q), cycle_val n u phi == exact_val (seq 0 n) (cycle_edges n) 0 phi (fun _ => u).
+Proof. intros n Hn. apply (cycle_identity_lift 8 cycle_ok_upto_10). lia. Qed.
 
 (* ================================================================== checker soundness *)
 (* GENERAL (every tau): if check_clique accepts the implementation's polynomial impl/d, then for
